@@ -225,15 +225,19 @@ known("KF34-float-literal-overflow-prints-as-atom", ["C17"],
 known("KF32-lfi-annotated-disjunction-update-not-em", ["C24"],
       "learning an annotated disjunction with t(_) heads is not an EM step: LFIProblem._update counts every head's lfi_par once per head of the AD (denominator x number of heads), "
       "_normalize_weights (normalize=True, CLI default) then rescales the heads to the whole available mass (no 'none of the heads' outcome), and infer_AD_values rewrites the observations "
-      "of an AD before learning; the reported log-likelihood decreases between iterations",
+      "of an AD before learning; the reported log-likelihood decreases between iterations. With normalize=True this shows only when the AD has a fixed head or the data "
+      "contain an example in which the AD fires and none of its heads is chosen; complete ADs without such examples are monotone on the pinned tree",
       "t(0.2)::c1; t(0.3)::c2; t(0.1)::c3. h :- c1.  examples {h}, {\\+h}, {\\+c1, c2, \\+c3}; LFIProblem(..., normalize=False): LL -3.04, -4.19, -4.35, ...;  "
       "t(0.6)::a. 0.6::f. t(0.4)::m1; 0.3::m2. h1 :- m2. h1 :- m1, m2. h2 :- h1. h2 :- m1. h3 :- m1. with normalize=True: LL -11.8035 -> -11.8123",
-      match={"clause": "log-likelihood-decreases", "has_ad": True})
+      match_any=[{"clause": "log-likelihood-decreases", "has_ad": True, "normalize": False},
+                 {"clause": "log-likelihood-decreases", "has_ad": True, "normalize": True, "ad_fixed_head": True},
+                 {"clause": "log-likelihood-decreases", "has_ad": True, "normalize": True, "ad_null_in_data": True}])
 known("KF33-lfi-single-learnable-head-not-normalised", ["C24"],
-      "an AD with ONE learnable head and fixed heads (t(0.3)::m1; 0.1::m2.) is treated as 'not an AD' by _normalize_weights (len(idx) == 1), so the learned head can reach 1.0 and the "
-      "learned model '1.0::m1; 0.1::m2.' has an AD mass of 1.1, which ProbLog itself rejects",
+      "an AD with ONE learnable head and fixed heads (t(0.3)::m1; 0.1::m2.) is treated as 'not an AD' by _normalize_weights (len(idx) == 1), so the learned head can reach 1.0 - with some data even exceed it "
+      "(t(0.3)::m1; 0.4::m2. learns m1 = 1.23, 1.48, ...) - and the learned model '1.0::m1; 0.1::m2.' has an AD mass of 1.1, which ProbLog itself rejects",
       "t(0.4)::a. t(_)::b. t(0.3)::m1; 0.1::m2. h1 :- a, m2.  examples {m1,b}, {m1,\\+m2,\\+h1}, ...: learned model contains 1.0::m1; 0.1::m2.",
-      match={"clause": "ad-sum-with-fixed-heads-exceeds-one", "ad_fixed_head": True, "learnable_heads": 1})
+      match_any=[{"clause": c, "ad_fixed_head": True, "learnable_heads": 1}
+                 for c in ("ad-sum-with-fixed-heads-exceeds-one", "parameter-not-a-probability", "ad-learned-sum-exceeds-one")])
 fixed("FX22-parser-indexerror-sharp-open", ["C17", "C27"], "842652f", "parsing 'a < .' raised IndexError in PrologParser.collapse instead of a ParseError", "list(PrologString('a < .'))")
 fixed("FX23-kbest-explanation-head", ["C23"], "91c12a7",
       "explain: the proofs of queries that share a formula node were all printed under the first such query's name (p(c1) three times for p(c1), p(c2), p(c3))",
